@@ -4,6 +4,7 @@ import (
 	"context"
 	"encoding/base64"
 	"fmt"
+	"slices"
 	"sort"
 
 	apiv1 "k8s.io/api/core/v1"
@@ -507,7 +508,7 @@ func (hpr *hostPathRules) upsertRoute(
 				routeNsName := client.ObjectKeyFromObject(route.Source)
 
 				hostRule.GRPC = GRPC
-				hostRule.Policies = append(hostRule.Policies, pols...)
+				hostRule.Policies = appendUniquePolicies(hostRule.Policies, pols)
 
 				hostRule.MatchRules = append(hostRule.MatchRules, MatchRule{
 					Source:       objectSrc,
@@ -931,6 +932,18 @@ func buildSnippetsForContext(
 	}
 
 	return snippetsForContext
+}
+
+// appendUniquePolicies appends the policies that are not already in the list. A path rule collects the policies of
+// every match that shares its path; adding the same policy twice would include its file twice in one location.
+func appendUniquePolicies(existing, pols []policies.Policy) []policies.Policy {
+	for _, pol := range pols {
+		if !slices.Contains(existing, pol) {
+			existing = append(existing, pol)
+		}
+	}
+
+	return existing
 }
 
 func buildPolicies(graphPolicies []*graph.Policy) []policies.Policy {
